@@ -309,3 +309,237 @@ pub extern "C" fn vh_c11_try_from() {
     }
     cover(4);
 }
+
+// ---------------------------------------------------------------------------------------------
+// C20: CharSet interval algebra.  param 0 = group
+fn any_set() -> (u32, u32, CharSet) {
+    let a = any_u32();
+    let b = any_u32();
+    assume(a <= b && b <= MAXC);
+    (a, b, CharSet::range(a, b))
+}
+
+#[no_mangle]
+pub extern "C" fn vh_c20_charset() {
+    let group = param(0);
+    let (a, b, s) = any_set();
+    let (c, d, t) = any_set();
+    let x = any_u32(); // any u32, not only characters
+    let in_s = (a <= x) & (x <= b);
+    let in_t = (c <= x) & (x <= d);
+    if group == 0 {
+        check(s.contains(x) == in_s, 1);
+        // covers: sound for every x, complete by witnesses c, d
+        let cv = s.covers(&t);
+        check(!cv | !in_t | in_s, 2);
+        check(cv | !((a <= c) & (c <= b)) | !((a <= d) & (d <= b)), 3);
+        // is_before / is_after against members: y in s
+        let y = any_u32();
+        assume(a <= y && y <= b);
+        check(!s.is_before(x) | (y < x), 4);
+        check(s.is_before(x) | (b >= x), 5);
+        check(!s.is_after(x) | (x < y), 6);
+        check(s.is_after(x) | (x >= a), 7);
+        check(s.size() == b.wrapping_sub(a).wrapping_add(1), 8);
+        check(s.size() >= 1, 9);
+        check(s.is_singleton() == (a == b), 10);
+        check(s.is_singleton() == (s.size() == 1), 11);
+        check(s.is_alphabet() == ((a == 0) & (b == MAXC)), 12);
+        check(s.is_alphabet() == (s.size() == MAXC + 1), 13);
+        let p = s.pick();
+        check((a <= p) & (p <= b), 14);
+        check(CharSet::singleton(a) == CharSet::range(a, a), 15);
+        check(CharSet::all_chars() == CharSet::range(0, MAXC), 16);
+        cover(1);
+    } else if group == 1 {
+        match s.inter(&t) {
+            Some(u) => {
+                check(u.start <= u.end, 20);
+                check(u.contains(x) == (in_s & in_t), 21);
+            }
+            None => {
+                check(!(in_s & in_t), 22);
+                // really empty: the two witnesses max(start) and min(end) are not common members
+                check((b < c) | (d < a), 23);
+            }
+        }
+        match s.union(&t) {
+            Some(u) => {
+                check(u.start <= u.end && u.end <= MAXC, 24);
+                check(u.contains(x) == (in_s | in_t), 25);
+            }
+            None => {
+                // not an interval: a character strictly between the two sets exists
+                check((b.wrapping_add(1) < c) | (d.wrapping_add(1) < a), 26);
+            }
+        }
+        // union is Some exactly when overlapping or adjacent
+        let gap = (b.wrapping_add(1) < c) | (d.wrapping_add(1) < a);
+        check(s.union(&t).is_none() == gap, 27);
+        check(s.inter(&t) == t.inter(&s), 28);
+        check(s.union(&t) == t.union(&s), 29);
+        cover(2);
+    } else if group == 2 {
+        use std::cmp::Ordering;
+        let r = s.partial_cmp(&t);
+        match r {
+            Some(Ordering::Equal) => check((a == c) & (b == d), 30),
+            Some(Ordering::Less) => check(b < c, 31),
+            Some(Ordering::Greater) => check(a > d, 32),
+            None => check(!((a == c) & (b == d)) & !(b < c) & !(a > d), 33),
+        }
+        check((s == t) == ((a == c) & (b == d)), 34);
+        check((s < t) == (b < c), 35);
+        check((s > t) == (a > d), 36);
+        cover(3);
+    } else {
+        // inter_list over k = param(1) sets
+        let k = param(1) as usize;
+        let mut l: Vec<CharSet> = Vec::new();
+        let mut mem = true;
+        let mut i = 0;
+        while i < k {
+            let (e, f, u) = any_set();
+            mem = mem & (e <= x) & (x <= f);
+            l.push(u);
+            i += 1;
+        }
+        match CharSet::inter_list(&l) {
+            Some(u) => {
+                check(u.start <= u.end, 40);
+                check(u.contains(x) == (mem & (x <= MAXC)), 41);
+            }
+            None => check(!mem, 42),
+        }
+        if k == 0 {
+            check(CharSet::inter_list(&l) == Some(CharSet::all_chars()), 43);
+        }
+        // None only when really empty: max of starts > min of ends
+        let mut lo = 0u32;
+        let mut hi = MAXC;
+        let mut i = 0;
+        while i < k {
+            lo = if l[i].start > lo { l[i].start } else { lo };
+            hi = if l[i].end < hi { l[i].end } else { hi };
+            i += 1;
+        }
+        check(CharSet::inter_list(&l).is_none() == (lo > hi), 44);
+        cover(4);
+    }
+}
+
+// ---------------------------------------------------------------------------------------------
+// C12: merge_partitions.  params: 0 = n, 1 = m
+fn same_class(v: &[(u32, u32)], x: u32, y: u32) -> bool {
+    let mut both = false;
+    let mut cx = false;
+    let mut cy = false;
+    let mut i = 0;
+    while i < v.len() {
+        let ix = (v[i].0 <= x) & (x <= v[i].1);
+        let iy = (v[i].0 <= y) & (y <= v[i].1);
+        both = both | (ix & iy);
+        cx = cx | ix;
+        cy = cy | iy;
+        i += 1;
+    }
+    both | (!cx & !cy)
+}
+
+fn cov(v: &[(u32, u32)], x: u32) -> bool {
+    let mut c = false;
+    let mut i = 0;
+    while i < v.len() {
+        c = c | ((v[i].0 <= x) & (x <= v[i].1));
+        i += 1;
+    }
+    c
+}
+
+fn intervals_of(p: &CharPartition) -> Vec<(u32, u32)> {
+    let mut r = Vec::new();
+    let mut i = 0;
+    while i < p.len() {
+        r.push(p.get(i));
+        i += 1;
+    }
+    r
+}
+
+fn check_merge_result(r: &CharPartition, v1: &[(u32, u32)], v2: &[(u32, u32)], x: u32, y: u32, z: u32) {
+    let rv = intervals_of(r);
+    // (iv) sorted, disjoint, well formed
+    let mut i = 0;
+    while i < rv.len() {
+        check((rv[i].0 <= rv[i].1) & (rv[i].1 <= MAXC), 1);
+        if i > 0 {
+            check(rv[i - 1].1 < rv[i].0, 2);
+        }
+        i += 1;
+    }
+    // (i) refinement
+    check(!same_class(&rv, x, y) | (same_class(v1, x, y) & same_class(v2, x, y)), 3);
+    // (ii) maximality on adjacent characters
+    check(same_class(&rv, z, z + 1) == (same_class(v1, z, z + 1) & same_class(v2, z, z + 1)), 4);
+    // (iii) complement of the result = intersection of the complements
+    check(cov(&rv, x) == (cov(v1, x) | cov(v2, x)), 5);
+    let w = r.pick_complement();
+    check(w <= MAXC + 1, 6);
+    check((w > MAXC) | !(cov(v1, w) | cov(v2, w)), 7);
+    check((y >= w) | cov(v1, y) | cov(v2, y), 8);
+    check(r.empty_complement() == (w > MAXC), 9);
+}
+
+#[no_mangle]
+pub extern "C" fn vh_c12_merge() {
+    let n = param(0) as usize;
+    let m = param(1) as usize;
+    let v1 = any_intervals(n);
+    let v2 = any_intervals(m);
+    // all symbolic inputs are drawn (and constrained) before the code under test runs
+    let x = any_char();
+    let y = any_char();
+    let z = any_u32();
+    assume(z < MAXC);
+    let p1 = build_push(&v1, n);
+    let p2 = build_push(&v2, m);
+    let r = merge_partitions(&p1, &p2);
+    check_merge_result(&r, &v1[..n], &v2[..m], x, y, z);
+    cover(1);
+}
+
+// C12: algebraic laws: commutative, idempotent, empty neutral, list fold independent of order
+// params: 0 = n1, 1 = n2, 2 = n3
+#[no_mangle]
+pub extern "C" fn vh_c12_laws() {
+    let n = [param(0) as usize, param(1) as usize, param(2) as usize];
+    let v = [any_intervals(n[0]), any_intervals(n[1]), any_intervals(n[2])];
+    let x = any_char();
+    let z = any_u32();
+    assume(z < MAXC);
+    let p = [build_push(&v[0], n[0]), build_push(&v[1], n[1]), build_push(&v[2], n[2])];
+    let e = CharPartition::new();
+    check(merge_partitions(&p[0], &e) == p[0], 20);
+    check(merge_partitions(&e, &p[0]) == p[0], 21);
+    check(merge_partitions(&p[0], &p[0]) == p[0], 22);
+    let m01 = merge_partitions(&p[0], &p[1]);
+    check(m01 == merge_partitions(&p[1], &p[0]), 23);
+    let l0 = merge_partition_list(vec![&p[0], &p[1], &p[2]].into_iter());
+    check(l0 == merge_partitions(&m01, &p[2]), 24);
+    let mut k = 0;
+    while k < 6 {
+        let q = PERMS3[k];
+        let l = merge_partition_list(vec![&p[q[0]], &p[q[1]], &p[q[2]]].into_iter());
+        check(l == l0, 25);
+        k += 1;
+    }
+    check(merge_partition_list(vec![&e, &p[0], &e].into_iter()) == p[0], 26);
+    let none: Vec<&CharPartition> = Vec::new();
+    check(merge_partition_list(none.into_iter()) == e, 27);
+    // the folded result satisfies the pointwise spec against all three
+    let rv = intervals_of(&l0);
+    check(cov(&rv, x) == (cov(&v[0][..n[0]], x) | cov(&v[1][..n[1]], x) | cov(&v[2][..n[2]], x)), 28);
+    check(same_class(&rv, z, z + 1)
+        == (same_class(&v[0][..n[0]], z, z + 1) & same_class(&v[1][..n[1]], z, z + 1) & same_class(&v[2][..n[2]], z, z + 1)), 29);
+    cover(2);
+}
